@@ -299,3 +299,24 @@ M('flipx-wrong-code', ['C17'], UT, "                frame = Frame(cv2.flip(frame
 M('rot-swapped', ['C17'], UT, "                frame = Frame(cv2.rotate(frame.image, cv2.ROTATE_90_CLOCKWISE), frame)", "                frame = Frame(cv2.rotate(frame.image, cv2.ROTATE_90_COUNTERCLOCKWISE), frame)", ['C17.R4'])
 M('box-colour-not-reversed', ['C17'], UT, "        elif frame.is_bgr:\n            c = c[::-1]", "        elif frame.is_rgb:\n            c = c[::-1]", ['C17.R4'])
 M('fmtgray-wrong-accessor', ['C17'], UT, "            elif action == 'fmtgray':\n                frame = frame.gray", "            elif action == 'fmtgray':\n                frame = frame.bgr", ['C17.R4'])
+
+# -------------------------------------------------------------------------------------------------------- C13 / C14
+
+M('rolllog-D4-shape', ['C13'], RL, """        if (logfiles := self.logfiles) and int(ts * 1_000_000) <= (last_us := int(logfiles[-1].timestamp * 1_000_000)):""", """        if False and (logfiles := self.logfiles) and int(ts * 1_000_000) <= (last_us := int(logfiles[-1].timestamp * 1_000_000)):""", ['C13.R1'])
+M('rolllog-bump-not-above', ['C13'], RL, "            ts = (last_us + 1.5) / 1_000_000\n", "            ts = (last_us - 1.5) / 1_000_000\n", ['C13.R1'])
+M('rolllog-name-uses-other-ts', ['C13'], RL, "fnm_from_dats(dt, ts, self.tzstr, self.prefix, self.suffix)), 0)", "fnm_from_dats(dt, dt.timestamp(), self.tzstr, self.prefix, self.suffix)), 0)", ['C13.R1'])
+M('rolllog-no-prune-after-write', ['C13'], RL, "            if logfiles_size > self.total_size:\n                self.prune_logfiles()", "            if logfiles_size > self.total_size and flush:\n                self.prune_logfiles()", ['C13.R2'])
+M('rolllog-prune-newest', ['C13'], RL, "        if logfiles:  # don't prune last file, we could be writing to it but if not then we still want to keep at least one log\n            logfiles_size += next(itr_logfiles)[1].size", "        if logfiles and False:  # don't prune last file\n            logfiles_size += next(itr_logfiles)[1].size", ['C13.R2'])
+M('rolllog-no-rebase', ['C13'], RL, "            if (read_idx := self.read_idx - idx) >= 0:\n                self.read_idx = read_idx", "            if (read_idx := self.read_idx - idx) >= 0:\n                pass", ['C13.R2'])
+M('rolllog-unlocked-store', ['C13'], RL, "        with self.lock:\n            if self.write_file:\n                self.write_file.flush()", "        self.read_idx = self.read_idx\n        with self.lock:\n            if self.write_file:\n                self.write_file.flush()", ['C13.R3'])
+M('rolllog-refresh-unlocked', ['C13'], RL, "        with self.lock:\n            self.refresh_logfiles()\n\n    @staticmethod", "        self.refresh_logfiles()\n\n    @staticmethod", ['C13.R3'])
+
+M('head-written-in-place', ['C14'], RL, "                with open((head_tmp := head + '.tmp'), 'w') as f:\n                    f.write(json_dumps(pos) + '\\n')\n\n                os.rename(head_tmp, head)", "                with open(head, 'w') as f:\n                    f.write(json_dumps(pos) + '\\n')", ['C14.R1', 'C14.R2'])
+M('head-rename-inside-with', ['C14'], RL, "                    f.write(json_dumps(pos) + '\\n')\n\n                os.rename(head_tmp, head)", "                    f.write(json_dumps(pos) + '\\n')\n\n                    os.rename(head_tmp, head)", ['C14.R2'])
+M('head-rename-reversed', ['C14'], RL, "                os.rename(head_tmp, head)", "                os.rename(head, head_tmp)", ['C14.R2', 'C14.R1'])
+M('head-removed-first', ['C14'], RL, "                with open((head_tmp := head + '.tmp'), 'w') as f:", "                if os.path.exists(head):\n                    os.remove(head)\n\n                with open((head_tmp := head + '.tmp'), 'w') as f:", ['C14.R1', 'C14.R2'])
+M('head-restore-no-validation', ['C14'], RL, "                if not (isinstance(pos, list) and len(pos) == 2 and isinstance(pos[0], str) and isinstance(pos[1], int)):", "                if not (isinstance(pos, list) and len(pos) == 2):", ['C14.R3'])
+M('head-restore-reads-tmp', ['C14'], RL, "                    with open(head) as f:\n                        pos = json_loads(f.read().strip())", "                    with open(head + '.tmp' if os.path.exists(head + '.tmp') else head) as f:\n                        pos = json_loads(f.read().strip())", ['C14.R3', 'C14.R1'])
+M('head-missing-means-end', ['C14'], RL, "                pos = ('start', 0)", "                pos = ('end', 0)", ['C14.R3'])
+M('close-saves-after-closing', ['C14'], RL, "        with self.lock:\n            self.write_head()\n\n            if self.write_file:\n                self.write_file.close()\n\n            if self.read_file:\n                self.read_file.close()\n", "        with self.lock:\n            if self.write_file:\n                self.write_file.close()\n\n            if self.read_file:\n                self.read_file.close()\n\n            self.write_head()\n", ['C14.R4'])
+M('write_head-tell-outside-lock', ['C14'], RL, "        if (head := self.head) is not None:\n            with self.lock:\n                if pos is None:\n                    pos = self.tell()\n", "        if (head := self.head) is not None:\n            if pos is None:\n                pos = self.tell(False)\n            with self.lock:\n", ['C14.R4'])
